@@ -22,7 +22,7 @@ RULE = (
     "graph, equal or different inputs, each with its own max_concurrency), map; interleaving of concurrent runs by seeded delays, hold-open release and "
     "ready-shuffle. Reference = the same operation executed alone on freshly compiled objects. Non-trivial = >=2 runs overlapped in simulated time or a "
     "mutating function ran in >=2 runs; distinct = digest of (program shape, history, interleaving)."
-    ' Also: defaults that are dicts holding a mutable value, part of the inputs passed as keyword arguments, structurally identical graphs with different entry-point configuration on shared runners, a mapping node whose inner graph binds an object (clone True/False/list; wrapper input renamed or not); cache-enabled runners (shared or per-runner InMemoryCache) with cacheable mutating-default nodes; a run of a concurrent batch cancelled by a caller-side timeout (asyncio.wait_for on the virtual clock).'
+    ' Also: defaults that are dicts holding a mutable value, part of the inputs passed as keyword arguments, structurally identical graphs with different entry-point configuration on shared runners, a mapping node whose inner graph binds an object (clone True/False/list; wrapper input renamed or not); cache-enabled runners (shared or per-runner InMemoryCache) with cacheable mutating-default nodes; two sibling nested graphs binding one parameter name to different objects (with / without an overriding binding on the enclosing graph); a run of a concurrent batch cancelled by a caller-side timeout (asyncio.wait_for on the virtual clock).'
 )
 ASSUMPTIONS = ["node functions mutate only their default-valued arguments; bound and provided objects are only read"]
 
@@ -61,7 +61,9 @@ def gen_case(rng: random.Random, tier: str) -> dict:
     ops = []
     for _ in range(rng.randint(3, 8)):
         r = rng.random()
-        if r < 0.08:
+        if r < 0.05:
+            ops.append({"op": "siblings", "sync": rng.random() < 0.5, "runner": rng.randrange(2), "x": rng.randint(0, 2), "cfg": gen.gen_async_cfg(rng), "outer_bind": rng.random() < 0.3})
+        elif r < 0.12:
             ops.append({"op": "mapnode", "renamed": rng.random() < 0.5, "clone": rng.choice([True, False, ["y"]]), "xs": [rng.randint(0, 3) for _ in range(rng.randint(1, 3))], "sync": rng.random() < 0.5, "runner": rng.randrange(2), "cfg": gen.gen_async_cfg(rng)})
         elif r < 0.25:
             ops.append({"op": "sync", "g": rng.randrange(2), "runner": rng.randrange(2), "x": rng.randint(0, 2), "kw": rng.random() < 0.4, "ep": rng.random() < 0.3})
@@ -119,6 +121,19 @@ class _Pool:
                     graph, comp = build(spec, rt, flav)
                     self.comps.append(comp)
                     self.mapnode[(clone_key, flav, ren)] = (graph, comp.nodes["mp"].graph.inputs.bound["cfgi"])
+        # two sibling nested graphs that each bind the SAME parameter name to their own object (two agents, each with its own client):
+        # every function receives the object bound on ITS graph; an explicit binding on the enclosing graph overrides both
+        self.siblings: dict[tuple, tuple] = {}
+        for flav in ("sync", "async"):
+            for ob in (False, True):
+                spec = {"name": "sib", "nodes": [
+                    {"kind": "graph", "name": "SA", "graph": {"name": "SA", "bind": {"cfgs": {"who": ["A"]}}, "nodes": [{"kind": "fn", "name": "sa", "params": [{"name": "x"}, {"name": "cfgs"}], "outs": ["sa_o"]}], "order": [0]}},
+                    {"kind": "graph", "name": "SB", "graph": {"name": "SB", "bind": {"cfgs": {"who": ["B"]}}, "nodes": [{"kind": "fn", "name": "sb", "params": [{"name": "x"}, {"name": "cfgs"}], "outs": ["sb_o"]}], "order": [0]}},
+                ], "order": [0, 1]}
+                outer_obj = {"who": ["outer"]}
+                graph, comp = build(spec, rt, flav, bind={"cfgs": outer_obj} if ob else None)
+                self.comps.append(comp)
+                self.siblings[(flav, ob)] = (graph, comp.nodes["SA"].graph.inputs.bound["cfgs"], comp.nodes["SB"].graph.inputs.bound["cfgs"], outer_obj)
         from hypergraph import InMemoryCache
 
         mode = doc.get("cache")
@@ -234,6 +249,28 @@ def run_case(doc: dict) -> dict:
                 res["steps"] += (out.get("sim") or {}).get("steps") or 0
                 _compare(tag, _summ(out), ref(op["g"], op["x"], "async", ep=ep), viol)
                 _caller_dict(tag, inp, keep, viol)
+            elif op["op"] == "siblings":
+                flav = "sync" if op["sync"] else "async"
+                ob = bool(op.get("outer_bind"))
+                g, obj_a, obj_b, obj_outer = pool.siblings[(flav, ob)]
+                inp = {"x": op["x"]}
+                h0 = len(rt.history)
+                if flav == "sync":
+                    rt.schedule = {}
+                    out = call_sync(rt, lambda: pool.sync_runners[op["runner"]].run(g, inp), call_id=f"op{oi}")
+                else:
+                    rt.schedule = op["cfg"]["schedule"]
+                    rt.decisions = []
+                    out = call_async(rt, [lambda: pool.async_runners[op["runner"]].run(g, inp)], shuffle_seed=op["cfg"].get("shuffle"), call_ids=[f"op{oi}"])[0]
+                res["runs"] += 1
+                if out["status"] != "completed":
+                    viol.append((f"{tag}:sibling_graphs_run_not_completed", {"status": out["status"], "error": out["error"]}))
+                want = {"sa": obj_outer if ob else obj_a, "sb": obj_outer if ob else obj_b}
+                for h in rt.history[h0:]:
+                    if h["k"] == "enter" and h["n"] in want and h["objs"].get("cfgs") is not want[h["n"]]:
+                        viol.append((f"{tag}:bound_value_of_a_sibling_graph_reached_the_function", {"node": h["n"], "received": h["a"].get("cfgs"), "bound_on_its_graph": want[h["n"]], "outer_binding": ob}))
+                        break
+                res["stats"]["sibling_binding_ops"] = res["stats"].get("sibling_binding_ops", 0) + 1
             elif op["op"] == "mapnode":
                 flav = "sync" if op["sync"] else "async"
                 ck = "T" if op["clone"] is True else ("F" if op["clone"] is False else "L")
